@@ -253,10 +253,16 @@ def run(ctx):
             wdarr = np.array([rng.choice((0, 60, 180)) for _ in range(nt * ns)], float).reshape(nt, ns)
             mk = lambda a: xr.DataArray(a, coords={"time": da.time, "site": da.site}, dims=("time", "site"))  # noqa
             req = rng.randint(1, 4)
-            outs = {"ptm1": da.spec.partition.ptm1(mk(Aarr / AGEFAC), mk(wdarr), mk(np.full((nt, ns), DEPTH)), swells=req),
-                    "ptm2": da.spec.partition.ptm2(mk(Aarr / AGEFAC), mk(wdarr), mk(np.full((nt, ns), DEPTH)), swells=req),
-                    "ptm3": da.spec.partition.ptm3(parts=req)}
-            for name, o in outs.items():
+            wargs = (mk(Aarr / AGEFAC), mk(wdarr), mk(np.full((nt, ns), DEPTH)))
+            outs = {("ptm1", False): da.spec.partition.ptm1(*wargs, swells=req),
+                    ("ptm2", False): da.spec.partition.ptm2(*wargs, swells=req),
+                    ("ptm3", False): da.spec.partition.ptm3(parts=req),
+                    # smooth=True: the basins come from the smoothed spectrum, the energy still from the original one
+                    ("ptm1", True): da.spec.partition.ptm1(*wargs, swells=req, smooth=True),
+                    ("ptm2", True): da.spec.partition.ptm2(*wargs, swells=req, smooth=True),
+                    ("ptm3", True): da.spec.partition.ptm3(parts=req, smooth=True)}
+            sm = da.spec.smooth(3, 3).transpose("time", "site", "freq", "dir").values
+            for (name, smooth), o in outs.items():
                 o = o.transpose("time", "site", "part", "freq", "dir").values
                 for t in range(nt):
                     for s in range(ns):
@@ -264,18 +270,25 @@ def run(ctx):
                         fm = float_mask(F, D, Aarr[t, s], wdarr[t, s])
                         if fm is None:
                             continue
-                        Lmap = specpart.partition(np.array(e, "float32").reshape(nk, nth), 100)
-                        ctx.case(("acc", name, nk, nth, tuple(e), t, s), True)
+                        src = sm[t, s] if smooth else np.array(e, "float32").reshape(nk, nth)
+                        Lmap = specpart.partition(np.ascontiguousarray(src, dtype="float32"), 100)
+                        ctx.case(("acc", name, smooth, nk, nth, tuple(e), t, s), True)
+                        if not np.allclose(o[t, s], np.round(o[t, s]), atol=1e-6):
+                            ctx.violation({"where": "trace", "fn": name, "clause": "BinwiseOrigOrZero", "smooth": smooth},
+                                          "accessor.%s(smooth=%s) returned values that are neither the input's integers nor zero" % (name, smooth),
+                                          {"E": e, "shape": (nk, nth)})
+                            continue
                         ln = {"kind": name, "tid": tid, "E": e, "L": [int(x) for x in Lmap.ravel()],
                               "W": [int(x) for x in np.flatnonzero(fm.ravel())], "cutn": 3333, "cutd": 10000, "req": req,
                               "out": [[int(round(float(x))) for x in p.ravel()] for p in o[t, s]]}
                         groups.setdefault((nk, nth, tuple(F)), []).append(ln)
-                        index[tid] = ("accessor." + name, e, (nk, nth), 100, Aarr[t, s], wdarr[t, s], req, 0.3333, "dataset(%d,%d)" % (t, s))
+                        index[tid] = ("accessor." + name + ("(smooth)" if smooth else ""), e, (nk, nth), 100, Aarr[t, s], wdarr[t, s], req, 0.3333,
+                                      "dataset(%d,%d)" % (t, s))
                         tid += 1
     for tidr, clause in validate(ctx, groups):
         fn, e, shape, ihmax, A, wd, req, wscut, style = index[tidr]
         const = len(set(e)) == 1
-        ctx.violation({"where": "trace", "fn": fn.split(".")[-1].replace("np_", ""), "clause": clause, "constant_spectrum": const,
+        ctx.violation({"where": "trace", "fn": fn.split(".")[-1].replace("np_", "").replace("(smooth)", ""), "clause": clause, "constant_spectrum": const,
                        "nonzero": bool(any(e))},
                       "%s output rejected by PartitionTrace: clause %s (%s spectrum %s, requested %d)" % (fn, clause, style, shape, req),
                       {"E": e, "shape": shape, "ihmax": ihmax, "A": float(A), "wd": float(wd), "req": req, "wscut": wscut})
